@@ -2,7 +2,6 @@ package codegen
 
 import (
 	"errors"
-	"fmt"
 	gotoken "go/token"
 	gotypes "go/types"
 	"path/filepath"
@@ -27,7 +26,13 @@ func (c *context) ParseGo() bool {
 
 	absDir, err := filepath.Abs(c.Dir)
 	if err != nil {
-		panic(err)
+		c.Errs.GeneralError(err)
+		return false
+	}
+	// The go command resolves symbolic links in its working directory. The
+	// overlay only applies if it names the file the same way.
+	if realDir, err := filepath.EvalSymlinks(absDir); err == nil {
+		absDir = realDir
 	}
 
 	parserGenPath := filepath.Join(absDir, parserGenGo)
@@ -79,7 +84,9 @@ func (c *context) ParseGo() bool {
 	// The "Error" type is generated.
 	errorObj := scope.Lookup("Error")
 	if errorObj == nil {
-		panic("Error type is undefined")
+		c.Errs.GeneralErrorf(
+			"Error type is undefined: %v was not loaded with the package", parserGenGo)
+		return false
 	}
 	c.ErrorType = errorObj.Type()
 
@@ -106,7 +113,10 @@ func (c *context) lookupParserType(scope *gotypes.Scope) {
 	loxObj := scope.Lookup(parserStateName)
 	if loxObj == nil {
 		// This type is generated so this should always succeed.
-		panic(fmt.Errorf("could not find type %q", parserStateName))
+		c.Errs.GeneralErrorf(
+			"could not find type %q: %v was not loaded with the package",
+			parserStateName, parserGenGo)
+		return
 	}
 	loxType := loxObj.Type()
 
